@@ -533,7 +533,7 @@ EXTRA_FLOORS = {
             'damaged_utility_registries_reported_and_repaired[registration]': 200, 'repair_checks_with_a_comparison_fault[raised]': 500,
             'subscription_adapter_forms[inferred]': 500, 'handler_forms[inferred]': 300},
     'C17': {'multi_rebase_interrupted_by_a_raising_dependent': 50, 'multi_reverified_after_reinitialised_ancestor': 20, 'special_cases': 50},
-    'C18': dict({'descriptions_rendered_by_two_threads_at_once': 1},
+    'C18': dict({'descriptions_rendered_by_two_threads_at_once': 1, 'lambdas_described': 7},
                 **{'grid_points_by_kind_of_function[%s]' % k: 50 for k in ('plain', 'async', 'gen', 'asyncgen', 'closure')}),
     'C19': {'super_queries_failed_under_a_strict_order': 200, 'super_resolution_orders_compared': 50000, 'super_queries_with_nothing_left_of_the_mro': 20000,
             'super_queries_right_after_an_interrupted_declaration': 30},
